@@ -16,6 +16,54 @@ thread_local! {
     static TID: Cell<usize> = const { Cell::new(0) };
     static LAST_RMW_ON_X: Cell<bool> = const { Cell::new(false) };
 }
+// ---- allocations the crate makes OUTSIDE its own (hooked) buffer allocator: temporaries such as a `String`.
+// The harness binary installs a counting #[global_allocator]; it counts only while a crate call is being measured
+// (`mx`) and the harness's own bookkeeping (shim, callbacks) is not running (`Paused`).
+thread_local! {
+    static MEASURE: Cell<u32> = const { Cell::new(0) };
+    static PAUSE: Cell<u32> = const { Cell::new(0) };
+    static EXTRA: Cell<u64> = const { Cell::new(0) };
+}
+/// called by the global allocator on every alloc / realloc
+pub fn extra_note() {
+    let on = MEASURE.try_with(|m| m.get() > 0).unwrap_or(false) && PAUSE.try_with(|p| p.get() == 0).unwrap_or(false);
+    if on {
+        let _ = EXTRA.try_with(|e| e.set(e.get() + 1));
+    }
+}
+pub struct Measuring;
+impl Measuring {
+    pub fn new() -> Self {
+        MEASURE.with(|m| m.set(m.get() + 1));
+        Measuring
+    }
+}
+impl Drop for Measuring {
+    fn drop(&mut self) {
+        let _ = MEASURE.try_with(|m| m.set(m.get().saturating_sub(1)));
+    }
+}
+pub struct Paused;
+impl Paused {
+    pub fn new() -> Self {
+        let _ = PAUSE.try_with(|p| p.set(p.get() + 1));
+        Paused
+    }
+}
+impl Drop for Paused {
+    fn drop(&mut self) {
+        let _ = PAUSE.try_with(|p| p.set(p.get().saturating_sub(1)));
+    }
+}
+/// runs one call into the crate with the allocation counter on
+pub fn mx<R>(f: impl FnOnce() -> R) -> R {
+    let _g = Measuring::new();
+    f()
+}
+pub fn take_extra() -> u64 {
+    EXTRA.with(|e| e.replace(0))
+}
+
 pub fn tid() -> usize {
     TID.with(|t| t.get())
 }
